@@ -52,6 +52,9 @@ def cases(draw):
     etype = draw(st.sampled_from(['put', 'put', 'go'])) if entry == 'ext' else 'put'
     case = {'stages': stages, 'entry': entry, 'implicit_first': implicit, 'etype': etype,
             'not_from_undef': entry == 'input' and draw(st.booleans())}
+    if entry == 'input' and draw(st.booleans()):
+        # a filter in front of the (implicit) Repeat that strips data items, 'source' among them
+        case['strip'] = draw(st.sampled_from(['source', 'permit_value', 'previous']))
     # arrivals relative to the repetition instants of the previous arrival
     interval = stages[0]['interval'][0]
     arrivals = []
@@ -185,8 +188,13 @@ def source_arrivals(case):
         for a in seq:
             if cur is UNDEF or cur != a['value']:
                 if not (cur is UNDEF and case['not_from_undef']):
-                    out.append((a['t'], {'value': a['value'], 'previous': cur,
-                                         'trigger': 'output', 'source': 'src'}))
+                    data = {'value': a['value'], 'previous': cur, 'trigger': 'output', 'source': 'src'}
+                    strip = case.get('strip')
+                    if strip == 'permit_value':
+                        data = {'value': a['value']}
+                    elif strip is not None:
+                        del data[strip]
+                    out.append((a['t'], data))
                 cur = a['value']
     return out
 
@@ -336,7 +344,13 @@ def execute(case):
         first = stages[0]
         src = None
         if case['entry'] == 'input':
-            flt = [edzed.not_from_undef] if case['not_from_undef'] else None
+            flt = [edzed.not_from_undef] if case['not_from_undef'] else []
+            strip = case.get('strip')
+            if strip == 'permit_value':
+                flt.append(edzed.DataEdit.permit('value'))
+            elif strip is not None:
+                flt.append(edzed.DataEdit.delete(strip))
+            flt = flt or None
             src = edzed.Input('src', initdef=0, on_output=edzed.Event(
                 dest, etype, efilter=flt, repeat=first['interval'][1], count=first['count']))
             reps[0] = next(b for b in circuit.getblocks(edzed.Repeat) if b.name.startswith('_'))
@@ -429,6 +443,8 @@ def execute(case):
     res.classes = [f"stages={len(case['stages'])}", f"entry={case['entry']}"]
     if case['implicit_first'] or case['entry'] == 'input':
         res.classes.append('implicit Repeat')
+    if case.get('strip'):
+        res.classes.append('filter stripping items in front of the Repeat')
     if tie:
         res.classes.append('arrival exactly at a repetition instant')
     if stats['branch']:
@@ -443,6 +459,9 @@ def same_log(got, exp):
     if len(got) != len(exp):
         return False
     for (t1, e1, d1), (t2, e2, d2) in zip(got, exp):
+        if d2.get('orig_source', 0) is None and 'orig_source' not in d1:
+            # the event had no 'source' item: 'orig_source' may be None or absent (not documented)
+            d2 = {k: v for k, v in d2.items() if k != 'orig_source'}
         if abs(t1 - t2) > 1e-9 or e1 != e2 or set(d1) != set(d2):
             return False
         for k in d1:
